@@ -248,17 +248,33 @@ package internal
 //@ func sm2/internal.ScalarMult#eff
 //@ func sm2/internal.ScalarMixedMult_Unsafe#eff
 
-// Encoding (property C15), constant-time path (safe == true, the one Bytes() and the sm2 package use): the result is the
-// SEC1 uncompressed encoding of (x/z, y/z) mod p, or the one-byte encoding of infinity when z = 0, stated on the
-// coordinates. The fast path (safe == false, big.Int arithmetic and padding loops) is covered only by the bounded
-// stand-in that compares it with this one.
+// Encoding (property C15), both paths: the result is the SEC1 uncompressed encoding of (x/z, y/z) mod p, or the one-byte
+// encoding of infinity when z = 0, stated on the coordinates - for the constant-time path (safe == true, the one Bytes()
+// and the sm2 package use: fixed exponentiation and field multiplications) and for the fast path (safe == false: big.Int
+// ModInverse/Mul/Mod under the assumed math/big contracts, then the minimal encodings left-padded with zeros by the two
+// loops: rule leftpad). Since both satisfy the same postcondition, the two conversions agree.
 //@ func (*sm2/internal.SM2Point).bytes
 //@ mode int
 //@ requires wf: nonnil(p.x) && nonnil(p.y) && nonnil(p.z) && oksm2(p.x) && oksm2(p.y) && oksm2(p.z)
-//@ requires safe: safe
+//@ requires canon: 0 <= fv(p.x) && fv(p.x) < P && 0 <= fv(p.y) && fv(p.y) < P && 0 <= fv(p.z) && fv(p.z) < P
+//@ case safe: safe
+//@ case fast: !safe
 //@ ensures inf: fv(p.z) == 0 ==> len(result) == 1 && result[0] == 0
 //@ ensures fin: fv(p.z) != 0 ==> len(result) == 65 && result[0] == 4 && be(result[1:33]) == (fv(p.x) * invmod(fv(p.z), P)) % P && be(result[33:65]) == (fv(p.y) * invmod(fv(p.z), P)) % P
+//@ after buf = append(buf, xxBytes...) :: leftpad(buf[1:33], xxBytes)
+//@ after buf = append(buf, yyBytes...) :: leftpad(buf[33:65], yyBytes)
 //@ assigns out[0:65]
+//@ loop 1
+//@ invariant i: 0 <= i && i <= padx
+//@ invariant len: len(buf) == 1 + i && cap(buf) == 65 && same_array(buf[0:0], out[0:0]) && 0 <= padx && padx <= 32
+//@ invariant head: buf[0] == 4
+//@ invariant zeros: forall(j, 1, 1 + i, buf[j] == 0)
+//@ loop 2
+//@ invariant i: 0 <= i && i <= pady
+//@ invariant len: len(buf) == 33 + i && cap(buf) == 65 && same_array(buf[0:0], out[0:0]) && 0 <= pady && pady <= 32
+//@ invariant head: buf[0] == 4
+//@ invariant x: be(buf[1:33]) == (fv(p.x) * invmod(fv(p.z), P)) % P
+//@ invariant zeros: forall(j, 33, 33 + i, buf[j] == 0)
 
 // ---------------------------------------------------------------------------------------------
 // Exponent contracts (property C14): the comb evaluates to [sum_j k_j 2^j]G. The scalar is 256 symbolic bits, a
